@@ -164,3 +164,30 @@ reg(
     "outputs exactly the output-prefixed states/algebraics, Integer/Boolean python types kept.",
     "Flat model plus one nested component; flow/stream prefixes and der() of parameters/constants are outside the alphabet.",
 )
+
+reg(
+    "C13",
+    "E4-enum",
+    "exploration",
+    "exhaustive enumeration of (variable kind x attribute x expression form) singles and pairs against reference attribute values",
+    "For 14 variable kinds (Real/Integer/Boolean; scalar, 1-D, 2-D; algebraic, state, input, parameter, constant, output, "
+    "discrete) the defaults, every single (attribute, form) -- literal, integer literal, -p, 2*p+1, p/2, p*q, p^2, sin(p), "
+    "each-modified and array literals -- and all attribute pairs with literal / affine / non-affine forms are generated; "
+    "each attribute is compared with its reference value at 3 parameter points, both on the Variable object (MX "
+    "evaluated as a function of the parameters) and in the row/column of variable_metadata_function, so both the "
+    "affine-rebuild branch and the non-affine branch of that function are forced; Python types of Integer/Boolean "
+    "variables and their literal attributes are checked.",
+    "Finite parameter grid; array attributes whose *elements* depend on parameters are outside the alphabet.",
+)
+
+reg(
+    "C12",
+    "E4-enum",
+    "exploration",
+    "all 8 option settings x every loop/function/delay model, differential comparison with the default setting",
+    "Every for-equation and function model of the C11 families plus loop-with-call, delay and delay-in-loop models is "
+    "generated and simplified under all 8 settings of (unroll_loops, inline_functions, expand_mx); variable names, order, "
+    "shapes, Python types, attribute values, outputs and delay states must equal the default setting's, and the "
+    "residual, initial-residual, metadata and delay-argument functions must agree with it on 3 grid points.",
+    "Differential oracle (the default setting's meaning itself is C11's subject); finite grid.",
+)
